@@ -93,7 +93,14 @@ void Flow::process_packet(PDU& pdu) {
         update_state(*tcp);
         #ifdef TINS_HAVE_ACK_TRACKER
         if (flags_.ack_tracking) {
-            ack_tracker_.process_packet(*tcp);
+            try {
+                ack_tracker_.process_packet(*tcp);
+            }
+            catch (const malformed_option&) {
+                // A SACK option that can't be decoded only means its blocks
+                // can't be used (the ACK number has been processed by now):
+                // the segment's data still has to be handled
+            }
         }
         #endif // TINS_HAVE_ACK_TRACKER
     }
